@@ -77,6 +77,8 @@ def _atom_accepts(item, ch):
 
 
 def run(ctx):
+    from rules.common import require_fields
+    require_fields(ctx.program, 'tbutils.ParsedException', ['exc_type', 'exc_msg', 'frames'])
     prog = ctx.program
     mod = prog.module('tbutils')
     pat, flags, node, attr = module_regex(prog, 'tbutils', '_frame_re')
@@ -194,10 +196,26 @@ def run(ctx):
            'included, are recovered whole)', ok, loc=fs.loc, detail=det)
     # source line: 4-space indent, only when present
     ok = False
+    guarded = False
     if src_tmpl is not None:
         s3, h3 = format_skeleton(src_tmpl)
-        ok = s3 == ['    ', ''] and [txt(h) for h in h3] == ['source_line']
-    guarded = any(isinstance(n, ast.If) and txt(n.test) in ('source_line', 'not source_line') for fn in scope for n in ast.walk(fn.node))
+
+        def reads_source_line(e):
+            return any(isinstance(c, ast.Constant) and c.value == 'source_line' for c in ast.walk(e)) and \
+                isinstance(e, (ast.Call, ast.Subscript))
+        hole = h3[0] if len(h3) == 1 else None
+        hname = None
+        if isinstance(hole, ast.Name):
+            # a local holding frame.get('source_line') / frame['source_line'] (single assignment in the rendering code)
+            defs = [a.value for fn in scope for a in ast.walk(fn.node) if isinstance(a, ast.Assign) and len(a.targets) == 1
+                    and txt(a.targets[0]) == hole.id]
+            if len(defs) == 1 and reads_source_line(defs[0]):
+                hname = hole.id
+        elif hole is not None and reads_source_line(hole):
+            hname = txt(hole)
+        ok = s3 == ['    ', ''] and hname is not None
+        guarded = hname is not None and any(isinstance(n, ast.If) and txt(n.test) in (hname, 'not ' + hname)
+                                            for fn in scope for n in ast.walk(fn.node))
     ctx.ob('T12.srcline', ts.fq, 'source line is written with the 4-space indent and only when present', ok and guarded, loc=ts.loc)
     # lines joined by newline
     joins = [n for n in ast.walk(ts.node) if isinstance(n, ast.Call) and isinstance(n.func, ast.Attribute) and n.func.attr == 'join'
